@@ -371,6 +371,10 @@ func checkBrute(r *driver.Run, g *model.G, classVec []int, a answer, what string
 func runOne(r *driver.Run) {
 	t := r.T
 	N := t.Range(1, 9)
+	if t.Chance(1, 6) {
+		N = t.Range(10, 16) // larger graphs: code paths that depend on cell sizes > 8..12
+		r.Probe("service-capacity-10-to-16")
+	}
 	M := N * (N - 1) / 2
 	nreq := t.Range(1, 14)
 	classRate := []int{0, 0, 1, 4}[t.Draw(4)]
@@ -481,7 +485,7 @@ func runOne(r *driver.Run) {
 			if len(got.orbits) != n {
 				r.Fail("orbits", "orbit set has the wrong size", "%s: orbits %v", what, got.orbits)
 			}
-			if n <= 9 {
+			if n <= 16 {
 				checkBrute(r, g, classVec, got, what)
 			}
 			r.ObsInts(got.perm)
@@ -516,12 +520,12 @@ func main() {
 		Property: "C02",
 		Engine:   "canon-service",
 		Level:    "exploration",
-		Rule: "a case is one seeded history of up to 14 labelling requests through ONE reused CanonicalStorage/CanonicalOrderedPartition/CanonicalOptions triple of tape-chosen capacity N <= 9: graph sizes go up and down within capacity; families: edgeless, complete, cycle, complete bipartite, two copies of a random graph, circulants, relabelled copy of the previous graph, random densities; some requests carry vertex classes (an ordered partition, classes ascending) and some are 'interrupted' (CheckViability with tape-drawn ViableBits, which may return early and leave the partition mid-search before the next Reset). " +
-			"Each answer must equal the same call on fresh storage and CanonicalIsomorphFull (perm, orbit partition, generator list), perm must be a permutation, and for n <= 9 (groups up to 60000 elements) brute force over all (class-preserving) automorphisms must confirm orbits = orbits of Aut(g), every generator in Aut(g), closure of the generators = Aut(g). Non-trivial = at least 3 requests with at least one size change; distinct = distinct fingerprints of the observed answers.",
+		Rule: "a case is one seeded history of up to 14 labelling requests through ONE reused CanonicalStorage/CanonicalOrderedPartition/CanonicalOptions triple of tape-chosen capacity N <= 9 (one history in six: 10 <= N <= 16): graph sizes go up and down within capacity; families: edgeless, complete, cycle, complete bipartite, two copies of a random graph, circulants, relabelled copy of the previous graph, random densities; some requests carry vertex classes (an ordered partition, classes ascending) and some are 'interrupted' (CheckViability with tape-drawn ViableBits, which may return early and leave the partition mid-search before the next Reset). " +
+			"Each answer must equal the same call on fresh storage and CanonicalIsomorphFull (perm, orbit partition, generator list), perm must be a permutation, and for groups of up to 60000 elements brute force over all (class-preserving) automorphisms must confirm orbits = orbits of Aut(g), every generator in Aut(g), closure of the generators = Aut(g). Non-trivial = at least 3 requests with at least one size change; distinct = distinct fingerprints of the observed answers.",
 		Assumptions: []string{
 			"the caller protocol of the search package is followed: Reset(n, m, classes) before every call, sizes within the capacity the pair was created with, n >= 1",
 			"vertex classes are passed as ascending lists forming an ordered partition of the vertex set",
-			"brute force is limited to n <= 9 and |Aut(g)| <= 60000 (larger groups, i.e. K9 / its complement, are compared with the fresh call only)",
+			"brute force is limited to |Aut(g)| <= 60000 (larger groups, e.g. complete / edgeless graphs on >= 9 vertices, are compared with the fresh call only)",
 			"the 'orbits = Aut(g)' half is a per-input statement; it is checked on the graphs the histories visit",
 		},
 		Real:  []string{"graph.CanonicalIsomorphAllocated", "graph.CanonicalIsomorphFull", "graph.NewStorage / NewOrderedPartition / Reset", "disjoint.Set"},
@@ -530,7 +534,7 @@ func main() {
 			if tier == "thorough" {
 				return driver.Plan{Random: 1500000, WallLimit: 30 * time.Minute}
 			}
-			return driver.Plan{Random: 80000, WallLimit: 5 * time.Minute}
+			return driver.Plan{Random: 50000, WallLimit: 5 * time.Minute}
 		},
 		RunOne: runOne,
 	})
